@@ -77,8 +77,17 @@ POOL = [
     # directory, holding one-3D content resp. gridded content at the time of
     # the open (a path string says nothing about what the file holds now)
     ('rel>h.humidity', 'rel', None), ('rel>a.uamiv', 'rel', None),
+    # two more bpch files, each in a directory of its own with its own
+    # tables: other tracers and times (sub2), and a tracer that has no line
+    # in the tracerinfo.dat beside it (sub3)
+    ('sub2/c2.bpch', 'bpch2nd', 'bpch'), ('sub3/c3.bpch', 'bpch3rd', 'bpch'),
 ]
 NP = len(POOL)
+# probes that NAME a reader: made after every history in addition to the
+# format-less probes (a reader selected by name must not depend on the
+# history either)
+NAMED_PROBES = [('c.bpch', 'bpch2'), ('sub2/c2.bpch', 'bpch2'),
+                ('sub3/c3.bpch', 'bpch1')]
 # history events: format-less opens of every pool file, the late
 # registration of a reader, and opens that NAME a valid reader other than the
 # one auto-detection selects for that file
@@ -88,6 +97,7 @@ TOKENS = [('open', n) for n, _, _ in POOL if not n.startswith('rel>')] + [
     ('openx', 'c.bpch', 'bpch1'),
     ('openx', 'h_noext', 'humidity'),
     ('openx', 'e.nc', 'ioapi'),
+    ('openx', 'sub2/c2.bpch', 'bpch2'),
     # the same reader registered again under its name (the set of
     # registered readers does not change)
     ('rereg', 'humidity'), ('rereg', 'one3d'),
@@ -153,6 +163,23 @@ def make_pool():
         fh.write(refbpch.tracerinfo_text(bs))
     with open(os.path.join(d, 'diaginfo.dat'), 'w') as fh:
         fh.write(refbpch.diaginfo_text(bs))
+    rng2 = np.random.default_rng(20260927)
+    for sub, kind, drop in (('sub2', 'bpch2nd', False),
+                            ('sub3', 'bpch3rd', True)):
+        b2 = refbpch.gen_spec(rng2, small=True)
+        b2['tau0'] = bs['tau0'] + 8760.0 * (2 if drop else 1)
+        b2['nt'] = 2
+        img[kind] = refbpch.encode(b2)
+        os.makedirs(os.path.join(d, sub), exist_ok=True)
+        ttxt = refbpch.tracerinfo_text(b2)
+        if drop:
+            # the last tracer of the file has no line in the table
+            tl = ttxt.rstrip('\n').split('\n')
+            ttxt = '\n'.join(tl[:-1]) + '\n'
+        with open(os.path.join(d, sub, 'tracerinfo.dat'), 'w') as fh:
+            fh.write(ttxt)
+        with open(os.path.join(d, sub, 'diaginfo.dat'), 'w') as fh:
+            fh.write(refbpch.diaginfo_text(b2))
     asp = refarl.gen_spec(rng)
     asp.update(nx=24, ny=20)
     img['arl'] = refarl.encode(asp)[0]
@@ -369,6 +396,23 @@ def run(spec, res):
                 '%s %s)' % ([' '.join(t) for t in toks], name, got[0],
                             got[1], ' plus the same registration' if regs
                             else '', _base[bkey][0], _base[bkey][1]))
+    for name, fmt in NAMED_PROBES:
+        bkey = (name, bool(regs), fmt)
+        if bkey not in _base:
+            _base[bkey] = ask(regs, pool[name], fmt=fmt)[:3]
+        got = ask(hpaths, pool[name], fmt=fmt)
+        if got is None:
+            res.note('inconclusive:child-produced-nothing')
+            continue
+        res.hook('pncopen.return', 1 + len(hist_))
+        res.ev(digest([hist_, name, fmt]), len(hist_) > 0,
+               ['named-probe'])
+        if got[:3] != _base[bkey]:
+            problems.append(
+                'after %s, %s opened with format=%r is %s %s (from the '
+                'import-time state: %s %s)' % (
+                    [' '.join(t) for t in toks], name, fmt, got[0], got[1],
+                    _base[bkey][0], _base[bkey][1]))
     if not hist_:
         for name, kind, fmt in POOL:
             if fmt is None:
